@@ -19,6 +19,7 @@ CONSTANTS Users,               \* user names the client may try
           GssHonoursCallback,  \* FALSE = pinned tree: both GSS branches hard-wire AUTH_SUCCESSFUL
           BlobOmits,           \* "" | "sid" | "user" | "service" | "alg" | "key": field left out of the signed blob
           KeepsResultAfterBadSig,  \* TRUE = a failed verify_ssh_sig does not reset result
+          KeepsResultOnForeignLabel,  \* TRUE = a signature blob labelled with another algorithm than the request's keeps result
           ProbeAuthenticates,  \* TRUE = a PK_OK probe marks the session authenticated
           PinsUser,            \* FALSE = username comparison dropped
           PartialCounts,       \* TRUE = partial successes counted as failures
@@ -28,7 +29,8 @@ GssMethods == {"gssapi-with-mic", "gssapi-keyex"}
 \* methods: none password publickey keyboard-interactive gssapi-with-mic gssapi-keyex, "bogus" = any other name
 Services   == {"ssh-connection", "other"}
 Results    == {"ok", "partial", "fail"}
-SigKinds   == {"absent", "good", "alt_sid", "omit_sid", "alt_user", "alt_service", "alt_alg", "alt_key", "wrong_key", "corrupt"}
+SigKinds   == {"absent", "good", "alt_sid", "omit_sid", "alt_user", "alt_service", "alt_alg", "alt_key", "wrong_key", "corrupt",
+               "label_other", "label_garbage"}
 MicKinds   == {"good", "alt_sid", "alt_user"}
 Toks       == {"more", "done", "error"}
 
@@ -73,19 +75,25 @@ CapMessages == LET u == Primary   v == CHOOSE x \in Users : x # u   sv == "ssh-c
 \* ------------------------------------------------------------------ symbolic signatures
 \* what the signature of a publickey request was made over, and by which key.  "K" is the key named in the
 \* request (the one the application is asked about), "A" the algorithm named in the request.
-Signed(q) == [signer  |-> IF q.sig = "wrong_key" THEN "K2" ELSE "K",
+\* label = the algorithm name inside the signature blob.  "label_other": a genuine signature by the request's key made
+\* with (and over a blob naming) another algorithm A2, presented under a request naming A; "label_garbage": a blob
+\* labelled A2 followed by arbitrary bytes - needs no private key at all.
+Signed(q) == [signer  |-> IF q.sig = "wrong_key" THEN "K2" ELSE IF q.sig = "label_garbage" THEN "nobody" ELSE "K",
               sid     |-> IF q.sig = "alt_sid" THEN "other" ELSE IF q.sig = "omit_sid" THEN "left out" ELSE "this",
               user    |-> IF q.sig = "alt_user" THEN "someone else" ELSE q.user,
               service |-> IF q.sig = "alt_service" THEN "another service" ELSE q.service,
-              alg     |-> IF q.sig = "alt_alg" THEN "A2" ELSE "A",
+              alg     |-> IF q.sig \in {"alt_alg", "label_other"} THEN "A2" ELSE "A",
               key     |-> IF q.sig = "alt_key" THEN "K2" ELSE "K",
+              label   |-> IF q.sig \in {"label_other", "label_garbage"} THEN "A2" ELSE "A",
               intact  |-> q.sig # "corrupt"]
-\* the blob the server rebuilds (_get_session_blob) and the check verify_ssh_sig performs with the request's key
+\* the server first compares the blob's label with the request's algorithm, then rebuilds the signed data
+\* (_get_session_blob) and lets the request's key verify (verify_ssh_sig)
 Same(f, a, b) == BlobOmits = f \/ a = b
 CodeVerifies(q) == LET s == Signed(q) IN
-    /\ s.signer = "K" /\ s.intact
-    /\ Same("sid", s.sid, "this") /\ Same("user", s.user, q.user) /\ Same("service", s.service, q.service)
-    /\ Same("alg", s.alg, "A") /\ Same("key", s.key, "K")
+    IF s.label # "A" THEN KeepsResultOnForeignLabel
+    ELSE /\ s.signer = "K" /\ s.intact
+         /\ Same("sid", s.sid, "this") /\ Same("user", s.user, q.user) /\ Same("service", s.service, q.service)
+         /\ Same("alg", s.alg, "A") /\ Same("key", s.key, "K")
 \* ground truth the property speaks about: made by the request's key over exactly this session's values
 SigValid(q) == q.sig = "good"
 MicValid(q) == q.mic = "good"
